@@ -688,6 +688,46 @@ def fam_resume_label_out(tier, rng):
 FAMILIES.append(fam_resume_label_out)
 
 
+def fam_trap_then_jump(tier, rng):
+    """the statement right behind the failing one is a jump (GOTO out of a FOR body / out of a SELECT CASE block / forward in the
+    same block, GOSUB, EXIT SUB, RETURN): RESUME NEXT continues WITH that jump"""
+    out = []
+    for kind in ("div", "subscript", "builtin"):
+        for jump in ("goto-out-of-for", "goto-out-of-select", "goto-forward", "gosub", "return", "exit-sub"):
+            for mode in ("resumenext", "onerrornext"):
+                b = B()
+                i, j = var("I", "I"), var("J", "I")
+                f, code = failing(b, kind)
+                pre = [b.dim("AR", "I", [{"lo": lit("I", 0), "hi": lit("I", 3), "nolo": False}]), b.let(var("M", "I"), lit("I", 32767))]
+                on = [b.onerror("goto", "H")] if mode == "resumenext" else [b.onerror("next")]
+                hb = [b.label("H"), tok(b, "h", {"k": "err"}), b.resume("next")]
+                subs = []
+                if jump == "goto-out-of-for":
+                    body = [tok(b, "i", i), b.for_(j, lit("I", 1), lit("I", 3), None, [tok(b, "j", j), f, b.goto("OUT"), tok(b, "jumped-over")], hasstep=False),
+                            b.label("OUT"), tok(b, "out", i, j)]
+                    core = [b.for_(i, lit("I", 1), lit("I", 2), None, body, hasstep=False)]
+                elif jump == "goto-out-of-select":
+                    body = [tok(b, "i", i), b.select(i, [([eqt(lit("I", 1)), eqt(lit("I", 2))], [f, b.goto("OUT"), tok(b, "jumped-over")])], [tok(b, "else")]),
+                            b.label("OUT"), tok(b, "out", i)]
+                    core = [b.for_(i, lit("I", 1), lit("I", 2), None, body, hasstep=False)]
+                elif jump == "goto-forward":
+                    core = [tok(b, "a"), f, b.goto("OUT"), tok(b, "jumped-over"), b.label("OUT"), tok(b, "out")]
+                elif jump == "gosub":
+                    core = [tok(b, "a"), f, b.gosub("G"), tok(b, "back"), b.goto("FIN"), b.label("G"), tok(b, "g"), b.ret(), b.label("FIN")]
+                elif jump == "return":
+                    core = [b.gosub("G"), tok(b, "back"), b.goto("FIN"), b.label("G"), tok(b, "g"), f, b.ret(), tok(b, "not-here"), b.label("FIN")]
+                else:
+                    subs = [sub("P", [], [b.dim("AR", "I", [{"lo": lit("I", 0), "hi": lit("I", 3), "nolo": False}]), b.let(var("M", "I"), lit("I", 32767)),
+                                          tok(b, "in"), f, b.exit("sub"), tok(b, "not-here")])]
+                    core = [b.call("P", []), tok(b, "after-p")]
+                main = pre + on + core + [tok(b, "fin"), b.end()] + hb
+                out.append({"fam": "trap-then-jump:%s/%s/%s" % (kind, jump, mode), "prog": prog(main, subs)})
+    return out
+
+
+FAMILIES.append(fam_trap_then_jump)
+
+
 def cases(tier, seed):
     rng = random.Random(seed)
     out = []
